@@ -30,35 +30,46 @@ structure Run where
   left : Nat := 0
   idle : Nat := 0
   ending : Bool := false
+  endLegacy : Bool := false
+  endCalls : Nat := 0
   done : Bool := false
   out : Array String := #[]
 
 /-- the call loop of harness/zvh_cstream.c -/
-def runCalls (co : Nat → Nat) (n : Nat) (ic oc : Array Nat) (dirs : Array Char) : Nat → Nat → Run → Run
+def runCalls (co : Nat → Nat) (n cksum : Nat) (ic oc : Array Nat) (dirs : Array Char) : Nat → Nat → Run → Run
   | 0, _, st => st
   | fuel + 1, calls, st =>
     let isz0 := min ic[calls % ic.size]! (n - st.consumed)
-    let dc0 := dirs[calls % dirs.size]!
-    let (isz, dc1) := if st.ending then (st.left, 'e') else if st.consumed == n then (isz0, 'e') else (isz0, dc0)
+    let dc00 := dirs[calls % dirs.size]!
+    let dc0 := if dc00 == 'X' then (if st.consumed == n then 'x' else 'c') else dc00
+    let (isz1, dc1) := if st.ending then (st.left, if st.endLegacy then 'x' else 'e')
+                       else if st.consumed == n && dc0 != 'x' then (isz0, 'e') else (isz0, dc0)
+    -- 'x' = ZSTD_endStream, 'y' = ZSTD_flushStream: the legacy calls offer no input
+    let isz := if dc1 == 'x' || dc1 == 'y' then 0 else isz1
     let dc := if dc1 == 'E' then (if st.consumed + isz == n then 'e' else 'f') else dc1
-    let dir : EndOp := if dc == 'f' then .eFlush else if dc == 'e' then .eEnd else .eContinue
+    let dir : EndOp := if dc == 'f' || dc == 'y' then .eFlush else if dc == 'e' || dc == 'x' then .eEnd else .eContinue
     let osz := oc[calls % oc.size]!
     let (s1, c) := CStream.step co st.s isz osz dir
     let o1 := st.out.push (String.join (c.events.map evStr))
     let o2 := if c.inited then o1.push s!" i{s1.blockSize}/{s1.inBuffSize}/{s1.outBuffSize}/{s1.inBuffTarget}" else o1
     match c.ret with
     | .err => { st with s := s1, out := o2.push s!" {c.consumed}:{c.produced}:Emodel" }
-    | .val r =>
+    | .val r0 =>
+      -- ZSTD_endStream (single thread): what is left to flush, plus the last block header and the checksum while the frame is not ended
+      let r := if dc == 'x' then CStream.endStreamRet s1 r0 (cksum != 0) else r0
       let shown := if dc == 'c' then c.hint else r
       let o3 := o2.push s!" {c.consumed}:{c.produced}:{shown}"
-      let wasEnd := dc == 'e'
+      let wasEnd := dc == 'e' || dc == 'x'
       let ending := if wasEnd && r != 0 then true else if wasEnd && r == 0 then false else st.ending
+      let endLegacy := if wasEnd && r != 0 then dc == 'x' else st.endLegacy
+      let endCalls := if wasEnd && r != 0 then st.endCalls + 1 else if wasEnd then 0 else st.endCalls
       let done := wasEnd && r == 0 && st.consumed + c.consumed == n
       let noEffect := c.consumed == 0 && c.produced == 0 && !(wasEnd && r == 0)
       let idle := if noEffect then st.idle + 1 else 0
       let st1 : Run := { s := s1, consumed := st.consumed + c.consumed, left := isz - c.consumed, idle := idle, ending := ending,
-                         done := done, out := o3 }
-      if done || idle ≥ 40 then st1 else runCalls co n ic oc dirs fuel (calls + 1) st1
+                         endLegacy := endLegacy, endCalls := endCalls, done := done, out := o3 }
+      if endCalls > 4 * n + 4096 then { st1 with out := o3.push " LIVELOCK" }
+      else if done || idle ≥ 40 then st1 else runCalls co n cksum ic oc dirs fuel (calls + 1) st1
 
 def cs (ps : String) (n : Nat) (ins outs dirs chunks : String) : String :=
   let params := parseParams ps
@@ -73,7 +84,7 @@ def cs (ps : String) (n : Nat) (ins outs dirs chunks : String) : String :=
   | some (_, wl) =>
     let s0 := State.start wl (get 1015 0) (if get 9000 0 != 0 then some n else none)
     let co : Nat → Nat := fun i => cz[i]?.getD 0
-    let r := runCalls co n ic oc dv 2000000 0 { s := s0 }
+    let r := runCalls co n (if get 201 0 != 0 then 1 else 0) ic oc dv 2000000 0 { s := s0 }
     "cs" ++ String.join r.out.toList
 
 def step (_ : Unit) (ws : List String) : Unit × String :=
